@@ -23,7 +23,7 @@ COQ_DIRS = ['C11', 'C12']
 IMPORTS = ['C11.Model', 'C11.Spec', 'C12.Model', 'C12.Spec']
 CASE_TYPE = 'case'
 CHECK = 'check_case'
-SHARD = 24
+SHARD = 28
 RULE = ('1-8 motifs of width 2-20 (dirichlet PWMs of varying sharpness, float32 and float64), random sequences '
         'and sequences with the consensus (or its reverse complement) planted at every offset 0..L-w, lengths '
         '1-120 incl. shorter than / equal to the motif, N and other unknown characters, lower case (FASTA), '
@@ -56,12 +56,25 @@ def pwm_array(m, dtype):
 
 
 def log_odds(m, dtype, eps):
-    """exactly the expression of fimo(): numpy.log2(motif_pwms + eps) - math.log2(0.25)"""
+    """exactly the expression of fimo(): numpy.log2(motif_pwms + eps) - math.log2(0.25); eps keeps the
+    type it is passed with (a numpy.float64 eps promotes a float32 PWM to float64, a Python float
+    does not)"""
     return numpy.log2(pwm_array(m, dtype) + eps) - math.log2(0.25)
 
 
-def seq_idx(s):
-    return [LETTERS.index(ch) if ch in LETTERS else -1 for ch in s.upper()]
+def order_of(inp):
+    """row order of the alphabet as fimo sees it: the `alphabet` argument matters for FASTA input only"""
+    if inp.get('input') == 'fasta' and inp.get('alphabet'):
+        return inp['alphabet']['order']
+    return LETTERS
+
+
+def seq_idx(s, order=LETTERS):
+    return [order.index(ch) if ch in order else -1 for ch in s.upper()]
+
+
+def mdtype(inp):
+    return 'f64' if inp.get('meme') else inp['dtype']
 
 
 def one_hot(seqs):
@@ -75,44 +88,158 @@ def one_hot(seqs):
     return X
 
 
-def call_fimo(inp):
-    """one fimo() call; returns (result, names, seqnames, path)"""
-    import numba
+MIXED_NAMES = ['chr10', 'chr2', '1', 'X', 'seqB', 'chr1_random', 'a', 'Z9', 'chr11', '02', 'scaffold-7', 'b']
+
+
+def seq_names(inp):
+    n = len(inp['seqs'])
+    if inp.get('fasta', {}).get('names') == 'mixed':
+        return [MIXED_NAMES[i] if i < len(MIXED_NAMES) else 'q%03d' % i for i in range(n)]
+    return ['s%03d' % i for i in range(n)]
+
+
+def motif_names(inp):
+    n = len(inp['motifs'])
+    if inp.get('names') == 'odd' and not inp.get('meme'):
+        return ['MA%04d.%d fox-%d-rc' % (i, i % 3, i) if i % 2 == 0 else 'x y\tz%d' % i for i in range(n)]
+    return ['m%d' % i for i in range(n)]
+
+
+def build_motifs(inp):
+    """the `motifs` argument: dict of torch tensors (optionally non-contiguous / requiring grad) or
+    the path of a MEME file (values have 6 decimals, so the text is exact)"""
     import torch
+    names = motif_names(inp)
+    if inp.get('meme'):
+        os.makedirs(TMP, exist_ok=True)
+        _counter[0] += 1
+        path = os.path.join(TMP, 'm%d_%d.meme' % (os.getpid(), _counter[0]))
+        with open(path, 'w') as f:
+            f.write('MEME version 4\n\nALPHABET= ACGT\n\nstrands: + -\n\n'
+                    'Background letter frequencies\nA 0.25 C 0.25 G 0.25 T 0.25\n\n')
+            for nm, m in zip(names, inp['motifs']):
+                w = len(m[0])
+                f.write('MOTIF %s\nletter-probability matrix: alength= 4 w= %d nsites= 20 E= 0\n' % (nm, w))
+                for j in range(w):
+                    f.write(' '.join('%.6f' % m[a][j] for a in range(4)) + '\n')
+                f.write('\n')
+        return path, names, [path]
+    tdt = torch.float32 if inp['dtype'] == 'f32' else torch.float64
+    d = {}
+    for nm, m in zip(names, inp['motifs']):
+        t = torch.tensor(m, dtype=tdt)
+        if inp.get('noncontig'):
+            t = t.T.contiguous().T
+        if inp.get('grad'):
+            t.requires_grad_(True)
+        d[nm] = t
+    return d, names, []
+
+
+def build_sequences(inp):
+    """the `sequences` argument: a FASTA path (line width, CRLF, descriptions, unsorted names, empty
+    records, missing final newline) or a one-hot torch tensor / numpy array of any dtype"""
+    import torch
+    if inp['input'] == 'fasta':
+        fa = inp.get('fasta', {})
+        os.makedirs(TMP, exist_ok=True)
+        _counter[0] += 1
+        path = os.path.join(TMP, 'x%d_%d.fa' % (os.getpid(), _counter[0]))
+        nl = '\r\n' if fa.get('crlf') else '\n'
+        width = int(fa.get('width', 60))
+        lines = []
+        for i, (nm, s) in enumerate(zip(seq_names(inp), inp['seqs'])):
+            lines.append('>%s%s' % (nm, ' len=%d some description' % len(s) if fa.get('desc') and i % 2 == 0 else ''))
+            for a in range(0, len(s), width):
+                lines.append(s[a:a + width])
+        txt = nl.join(lines) + (nl if fa.get('final_nl', True) else '')
+        with open(path, 'w', newline='') as f:
+            f.write(txt)
+        return path, [path, path + '.fai']
+    X = one_hot(inp['seqs'])
+    if inp.get('noncontig'):
+        X = X.permute(0, 2, 1).contiguous().permute(0, 2, 1)
+    sd = inp.get('seq_dtype', 'float32')
+    if inp['input'] == 'numpy':
+        X = X.numpy().astype(sd)
+    else:
+        X = X.to(getattr(torch, sd))
+    return X, []
+
+
+def snapshot(x):
+    import torch
+    if isinstance(x, dict):
+        return {k: v.detach().clone() for k, v in x.items()}
+    if isinstance(x, torch.Tensor):
+        return x.clone()
+    if isinstance(x, numpy.ndarray):
+        return x.copy()
+    if isinstance(x, str) and os.path.exists(x):
+        return open(x, 'rb').read()
+    return x
+
+
+def same(a, b):
+    import torch
+    if isinstance(a, dict):
+        return all(torch.equal(a[k].detach(), b[k]) for k in a)
+    if isinstance(a, torch.Tensor):
+        return bool(torch.equal(a, b))
+    if isinstance(a, numpy.ndarray):
+        return bool(numpy.array_equal(a, b))
+    if isinstance(a, str) and os.path.exists(a):
+        return open(a, 'rb').read() == b
+    return True
+
+
+def ptyped(inp, x, key):
+    pt = inp.get('ptype', 'float')
+    if pt == 'np64':
+        return numpy.float64(x)
+    if pt == 'int' and key == 'bin' and float(x) == 1.0:
+        return 1
+    return x
+
+
+def call_fimo(inp):
+    """one checked fimo() call (twice on the very same objects when inp['reuse']); returns
+    (result, motif names, sequence names)"""
+    import numba
     from tangermeme.tools.fimo import fimo
-    path = None
+    trash = []
     try:
         numba.set_num_threads(max(1, min(int(inp.get('threads', 1)), numba.config.NUMBA_NUM_THREADS)))
-        tdt = torch.float32 if inp['dtype'] == 'f32' else torch.float64
-        names = ['m%d' % i for i in range(len(inp['motifs']))]
-        motifs = {nm: torch.tensor(m, dtype=tdt) for nm, m in zip(names, inp['motifs'])}
-        seqnames = ['s%03d' % i for i in range(len(inp['seqs']))]
-        if inp['input'] == 'fasta':
-            os.makedirs(TMP, exist_ok=True)
-            _counter[0] += 1
-            path = os.path.join(TMP, 'x%d_%d.fa' % (os.getpid(), _counter[0]))
-            with open(path, 'w') as f:
-                for nm, s in zip(seqnames, inp['seqs']):
-                    f.write('>%s\n' % nm)
-                    for a in range(0, len(s), 60):
-                        f.write(s[a:a + 60] + '\n')
-            sequences = path
-        else:
-            sequences = one_hot(inp['seqs'])
-            if inp['input'] == 'numpy':
-                sequences = sequences.numpy()
+        motifs, names, t1 = build_motifs(inp)
+        trash += t1
+        sequences, t2 = build_sequences(inp)
+        trash += t2
         mode = inp['mode']
-        res = fimo(motifs, sequences, bin_size=inp['bin'], eps=inp['eps'], threshold=inp['thr'],
-                   reverse_complement=inp['rc'], return_counts=(mode == 'counts'),
-                   dim=1 if mode == 'dim1' else 0)
-        return res, names, seqnames
+        kw = dict(bin_size=ptyped(inp, inp['bin'], 'bin'), eps=ptyped(inp, inp['eps'], 'eps'),
+                  threshold=ptyped(inp, inp['thr'], 'thr'), reverse_complement=inp['rc'],
+                  return_counts=(mode == 'counts'), dim=1 if mode == 'dim1' else 0)
+        if inp.get('alphabet'):
+            o = inp['alphabet']['order']
+            kw['alphabet'] = {'str': o, 'tuple': tuple(o), 'list': list(o)}[inp['alphabet'].get('form', 'list')]
+        if inp.get('defaults'):
+            # leave parameters that have their default value out of the call
+            for k, dv in (('bin_size', 0.1), ('eps', 0.0001), ('threshold', 0.0001), ('reverse_complement', True),
+                          ('return_counts', False), ('dim', 0)):
+                if kw[k] == dv:
+                    del kw[k]
+        snap = (snapshot(motifs), snapshot(sequences))
+        res = fimo(motifs, sequences, **kw)
+        if inp.get('reuse'):
+            res = fimo(motifs, sequences, **kw)          # same objects again: nothing may have changed
+        if not (same(motifs, snap[0]) and same(sequences, snap[1])):
+            raise RuntimeError('verif: fimo modified its arguments')
+        return res, names, seq_names(inp)
     finally:
-        if path:
-            for p in (path, path + '.fai'):
-                try:
-                    os.remove(p)
-                except OSError:
-                    pass
+        for p in trash:
+            try:
+                os.remove(p)
+            except OSError:
+                pass
 
 
 def run_local(inp):
@@ -216,7 +343,7 @@ def qlit(x):
 
 
 def call_lit(inp):
-    los = [log_odds(m, inp['dtype'], inp['eps']) for m in inp['motifs']]
+    los = [log_odds(m, mdtype(inp), ptyped(inp, inp['eps'], 'eps')) for m in inp['motifs']]
     fr = [[[Fraction(float(lo[a, j])) for a in range(4)] for j in range(lo.shape[1])] for lo in los]
     K = 0
     for m in fr:
@@ -232,7 +359,7 @@ def call_lit(inp):
     mode = {'dim0': 'Dim0', 'dim1': 'Dim1', 'counts': 'Counts'}[inp['mode']]
     return '(Call %s %s %s %s %s %s %s)' % (
         C.z(K), C.lst(mots), qlit(inp['bin']), qlit(inp['thr']),
-        C.lst([C.zlist(seq_idx(s)) for s in inp['seqs']]), C.boolean(inp['rc']), mode)
+        C.lst([C.zlist(seq_idx(s, order_of(inp))) for s in inp['seqs']]), C.boolean(inp['rc']), mode)
 
 
 def hit_lit(h):
@@ -262,7 +389,7 @@ def float_scan(inp):
     from tangermeme.tools.fimo import _pwm_to_mapping
     n_win = n_hit = n_amb = 0
     for m in inp['motifs']:
-        lo = log_odds(m, inp['dtype'], inp['eps']).astype(numpy.float64)
+        lo = log_odds(m, mdtype(inp), ptyped(inp, inp['eps'], 'eps')).astype(numpy.float64)
         for strand in ((0, 1) if inp['rc'] else (0,)):
             mat = lo[::-1, ::-1] if strand else lo
             sm, tab = _pwm_to_mapping(numpy.ascontiguousarray(mat), float(inp['bin']))
@@ -270,7 +397,7 @@ def float_scan(inp):
             T = (idx[0] + sm) * inp['bin'] if len(idx) else math.inf
             w = mat.shape[1]
             for s in inp['seqs']:
-                x = seq_idx(s)
+                x = seq_idx(s, order_of(inp))
                 for i in range(len(x) - w + 1):
                     sc = sum(mat[x[i + j], j] for j in range(w) if x[i + j] >= 0)
                     n_win += 1
@@ -286,7 +413,12 @@ def nontrivial(inp, out):
 
 def hist_key(inp, out):
     n_amb = out.get('scan', [0, 0, 0])[2]
-    return '%s%s/%s/rc%d/%s/t%d/amb%d' % (inp['input'], '+pre' if inp.get('pre') else '', inp['mode'], inp['rc'],
+    form = ''.join('+' + k for k in ('pre', 'reuse', 'meme', 'noncontig', 'alphabet') if inp.get(k))
+    if inp.get('seq_dtype', 'float32') != 'float32':
+        form += '+' + inp['seq_dtype']
+    if inp.get('ptype'):
+        form += '+p' + inp['ptype']
+    return '%s%s/%s/rc%d/%s/t%d/amb%d' % (inp['input'], form, inp['mode'], inp['rc'],
                                           'ok' if out['ok'] else ('crash' if out.get('crash') else 'raise'),
                                           min(inp.get('threads', 1), 16) // 4 * 4, 1 if n_amb else 0)
 
@@ -474,7 +606,7 @@ def n_run_cases(rng, quick):
 def multi_call(rng, c):
     """the same motif set scanned before with one parameter changed (eps, bin_size, threshold,
     reverse_complement, other sequences): cross-call state must not leak into the checked call"""
-    what = rng.choice(['eps', 'eps', 'eps', 'bin', 'thr', 'rc', 'seqs', 'mode'])
+    what = rng.choice(['eps', 'eps', 'eps', 'bin', 'thr', 'rc', 'seqs', 'mode', 'threads', 'dtype'])
     if what == 'eps':
         ov = {'eps': rng.choice([e for e in (1e-6, 1e-4, 1e-3, 1e-2, 0.1) if e != c['eps']])}
     elif what == 'bin':
@@ -485,6 +617,10 @@ def multi_call(rng, c):
         ov = {'rc': not c['rc']}
     elif what == 'mode':
         ov = {'mode': rng.choice([x for x in ('dim0', 'dim1', 'counts') if x != c['mode']])}
+    elif what == 'threads':
+        ov = {'threads': rng.choice([1, 3, 16])}
+    elif what == 'dtype':
+        ov = {'dtype': 'f64' if c['dtype'] == 'f32' else 'f32'}
     else:
         ov = {'seqs': [rand_seq(rng, len(x), 0.05) for x in c['seqs']]}
     d = dict(c)
@@ -492,9 +628,73 @@ def multi_call(rng, c):
     return d
 
 
+def rc_string(s):
+    comp = {'A': 'T', 'C': 'G', 'G': 'C', 'T': 'A', 'a': 't', 'c': 'g', 'g': 'c', 't': 'a'}
+    return ''.join(comp.get(ch, ch) for ch in reversed(s))
+
+
+def forms_case(rng, quick):
+    """accepted input forms and parameter forms of fimo(), a few at a time on a fresh case"""
+    c = with_seqs(rng, base_case(rng, quick), planted=rng.random() < 0.5)
+    c['kind'] = 'forms'
+    c['thr'] = rng.choice([c['thr'], c['thr'], 1e-1, 1e-2, 0.5, 0.25, 0.0625])
+    if rng.random() < 0.25:                               # a width-1 motif among the others
+        c['motifs'] = c['motifs'] + [rand_pwm(rng, 1, 0.3)]
+    if rng.random() < 0.3:                                # every sequence together with its reverse complement
+        c['seqs'] = [x for s in c['seqs'][:3] for x in (s, rc_string(s))]
+    if rng.random() < 0.3:
+        c['noncontig'] = True
+    if rng.random() < 0.2:
+        c['grad'] = True
+    if rng.random() < 0.3:
+        c['names'] = 'odd'
+    if rng.random() < 0.3:
+        c['reuse'] = True
+    if rng.random() < 0.3:
+        c['defaults'] = True
+        if rng.random() < 0.7:
+            c.update(rng.choice([{'bin': 0.1}, {'eps': 0.0001}, {'thr': 0.0001, 'bin': 0.1, 'eps': 0.0001},
+                                 {'rc': True, 'mode': 'dim0'}]))
+    pt = rng.random()
+    if pt < 0.25:
+        c['ptype'] = 'np64'
+    elif pt < 0.4:
+        c['ptype'] = 'int'
+        c['bin'] = 1.0
+    if rng.random() < 0.2 and all(len(m[0]) <= 12 for m in c['motifs']):
+        c['meme'] = True
+        c['motifs'] = [[[round(x, 6) for x in row] for row in m] for m in c['motifs']]
+        c.pop('grad', None)
+    if c['input'] == 'fasta':
+        c['fasta'] = {'width': rng.choice([1, 7, 60, 61, 100000]), 'crlf': rng.random() < 0.25,
+                      'desc': rng.random() < 0.4, 'names': rng.choice(['plain', 'mixed']),
+                      'final_nl': rng.random() < 0.8}
+        if rng.random() < 0.3 and len(c['seqs']) < 10:    # empty records: first, middle, last
+            k = rng.choice([0, len(c['seqs']) // 2, len(c['seqs'])])
+            c['seqs'] = c['seqs'][:k] + [''] + c['seqs'][k:]
+            if rng.random() < 0.3:
+                c['seqs'] = c['seqs'] + ['']
+        if rng.random() < 0.5:
+            c['alphabet'] = {'order': rng.choice(['ACGT', 'ACGT', 'TGCA', 'CATG', 'GTAC']),
+                             'form': rng.choice(['list', 'str', 'tuple'])}
+    else:
+        if c['input'] == 'numpy':
+            c['seq_dtype'] = rng.choice(['float32', 'float64', 'int8', 'int64', 'uint8', 'bool', 'float16', 'int32'])
+        else:
+            c['seq_dtype'] = rng.choice(['float32', 'float64', 'int8', 'int64', 'uint8', 'float16', 'int32'])
+        if rng.random() < 0.2:
+            c['alphabet'] = {'order': 'TGCA', 'form': 'list'}      # ignored for tensor input
+    if rng.random() < 0.2:
+        ov = rng.choice([{'input': 'tensor'} if c['input'] == 'fasta' and len(set(map(len, c['seqs']))) == 1 and
+                         all(set(x) <= set('ACGTN') and x for x in c['seqs']) else {'eps': 0.01},
+                         {'alphabet': {'order': 'TGCA', 'form': 'list'}}, {'noncontig': True}, {'threads': 7}])
+        c['pre'] = [ov]
+    return c
+
+
 def generate(tier, rng):
     quick = tier != 'thorough'
-    n = 85 if quick else 450
+    n = 60 if quick else 400
     for i in range(n):
         c = with_seqs(rng, base_case(rng, quick), planted=(i % 2 == 0))
         for v in variants(rng, c):
@@ -504,6 +704,8 @@ def generate(tier, rng):
             yield multi_call(rng, with_seqs(rng, base_case(rng, quick), planted=(i % 2 == 1)))
     for v in n_run_cases(rng, quick):
         yield v
+    for _ in range(40 if quick else 250):
+        yield forms_case(rng, quick)
     # thread sweep on one larger input
     for _ in range(1 if quick else 6):
         c = with_seqs(rng, base_case(rng, quick), planted=False)
